@@ -509,3 +509,12 @@ func runEnvelope(mediaType string, b []byte) (out implEnvOut) {
 }
 
 var _ = crypto.SHA256
+
+// coseSignature: the signature bytes of a COSE_Sign1 (independent decoding)
+func coseSignature(env []byte) []byte {
+	var msg gocose.Sign1Message
+	if err := msg.UnmarshalCBOR(env); err != nil {
+		return nil
+	}
+	return msg.Signature
+}
